@@ -35,6 +35,7 @@ def main():
     ap.add_argument("--props", default="")
     ap.add_argument("--tier", default="quick")
     ap.add_argument("--own", action="store_true", help="only the check of the seed's own property")
+    ap.add_argument("--out", default="", help="results file name under seeded/ (default RESULTS.json / RESULTS.partial.json)")
     args = ap.parse_args()
     seeds = sorted(d for d in os.listdir(os.path.join(VERIF, "seeded")) if args.only in d and os.path.isdir(os.path.join(VERIF, "seeded", d)))
     results = {}
@@ -78,7 +79,7 @@ def main():
             else:
                 sh("git -C /repo checkout -- .")
         results[s] = {"property": prop, "checks": res, "caught_by": [p for p, v in res.items() if v["exit"] == 1]}
-    json.dump(results, open(os.path.join(VERIF, "seeded", "RESULTS.json" if not args.only and not args.props else "RESULTS.partial.json"), "w"), indent=1)
+    json.dump(results, open(os.path.join(VERIF, "seeded", args.out or ("RESULTS.json" if not args.only and not args.props else "RESULTS.partial.json")), "w"), indent=1)
     sh(f"rm -rf {out_dir}")
     missed = [s for s, v in results.items() if not v.get("caught_by")]
     print("missed:", missed)
